@@ -791,7 +791,7 @@ func (e *Engine) invoke(st *State, th *Thread, cl *Closure, args []Value, retTo 
 		c := &Call{E: e, St: st, Th: th, Fn: fn, Name: name, Args: args, RetTo: retTo, Fr: th.top(), Instr: instr}
 		return h(c)
 	}
-	if fn.Name() == "init" && fn.Pkg != nil && fn.Synthetic != "" && !e.execPkg(fn.Pkg.Pkg.Path()) {
+	if fn.Name() == "init" && fn.Pkg != nil && fn.Synthetic != "" && (!e.execPkg(fn.Pkg.Pkg.Path()) || strings.Contains(fn.Pkg.Pkg.Path(), "/internal/frontend/gen/")) {
 		return nil // initialiser of a package outside the execute set: not run
 	}
 	if len(fn.Blocks) == 0 {
